@@ -604,6 +604,126 @@ def b_pairs(ctx):
                                       [view, n, seed, ver])
 
 
+def _bmodel_phys_case(repo, variant):
+    """Brush models with physics keyvalues but no collision solids / solids but no keyvalues / neither."""
+    import shutil
+    import tempfile
+    from contracts import bsp_support as S
+    from srctools.keyvalues import Keyvalues
+    bsp = S.open_sample(repo)
+    models = list(bsp.bmodels.values()) if hasattr(bsp.bmodels, 'values') else list(bsp.bmodels)
+    if not models:
+        return None
+    m = models[0]
+    solids = list(m._phys_solids)
+    if variant == 'kv_only':
+        m.clear_physics()
+        m.phys_keyvalues = Keyvalues('solid', [Keyvalues('index', '0'), Keyvalues('mass', '12.5')])
+    elif variant == 'solids_only':
+        m.phys_keyvalues = None
+    elif variant == 'neither':
+        m.clear_physics()
+    elif variant == 'both':
+        m.phys_keyvalues = Keyvalues('solid', [Keyvalues('index', '0'), Keyvalues('name', 'a "quoted" name')])
+
+    def tree(kv):
+        return (kv.real_name, [tree(c) for c in kv] if kv.has_children() else kv.value)
+
+    def desc(model):
+        kv = model.phys_keyvalues
+        if kv is None:
+            blocks = None
+        elif kv.real_name is None:          # as read back: a root holding the blocks
+            blocks = [tree(c) for c in kv]
+        else:                               # as assigned here: one named block
+            blocks = [tree(kv)]
+        return (blocks, [bytes(b) for b in model._phys_solids])
+    want = [desc(x) for x in models]
+    if variant == 'solids_only' and solids:
+        # solids without keyvalues are written with an empty keyvalues block; they read back with an empty tree
+        want[0] = ([], want[0][1])
+    d = tempfile.mkdtemp(prefix='c11b_')
+    try:
+        try:
+            back, _ = S.save_and_reopen(bsp, d)
+            got_models = list(back.bmodels.values()) if hasattr(back.bmodels, 'values') else list(back.bmodels)
+            got = [desc(x) for x in got_models]
+        except Exception as e:
+            return f'bmodel physics ({variant}): save/re-read raised {type(e).__name__}: {e}'
+        if len(got) != len(want):
+            return f'bmodel physics ({variant}): {len(want)} models became {len(got)}'
+        for i, (w, g) in enumerate(zip(want, got)):
+            wk = w[0] if w[0] else None
+            gk = g[0] if g[0] else None
+            if wk != gk or w[1] != g[1]:
+                return f'bmodel physics ({variant}): model {i} wrote keyvalues {w[0]} + {len(w[1])} solids, read {g[0]} + {len(g[1])} solids'
+        return None
+    finally:
+        shutil.rmtree(d, ignore_errors=True)
+
+
+def _ent_output_case(repo, variant):
+    """Entity outputs through the entity lump: both separator conventions of the map, outputs whose own comma_sep flag
+    differs from the map's, parameters containing commas."""
+    import shutil
+    import tempfile
+    from contracts import bsp_support as S
+    from srctools.vmf import Output
+    bsp = S.open_sample(repo)
+    vmf = bsp.ents
+    map_comma, out_comma, param = variant
+    bsp.out_comma_sep = map_comma
+    ent = vmf.create_ent('logic_relay', targetname='c11_relay', origin='1 2 3')
+    ent.add_out(Output('OnTrigger', 'script', 'RunScriptCode', param, 0.5, times=-1, comma_sep=out_comma))
+    ent.add_out(Output('OnSpawn', 'other', 'Kill', '', 0.0, times=1, comma_sep=not out_comma))
+    want = [(o.output, o.target, o.input, o.params, o.delay, o.times) for o in ent.outputs]
+    d = tempfile.mkdtemp(prefix='c11e_')
+    try:
+        try:
+            back, _ = S.save_and_reopen(bsp, d)
+            ents = [e for e in back.ents.entities if e['targetname'] == 'c11_relay']
+        except Exception as e:
+            return f'entity outputs {variant}: save/re-read raised {type(e).__name__}: {e}'
+        if len(ents) != 1:
+            return f'entity outputs {variant}: the entity was read back {len(ents)} times'
+        got = [(o.output, o.target, o.input, o.params, o.delay, o.times) for o in ents[0].outputs]
+        if got != want:
+            return f'entity outputs {variant}: wrote {want}, read {got} (keys: {dict(ents[0].items())})'
+        return None
+    finally:
+        shutil.rmtree(d, ignore_errors=True)
+
+
+def _job_extra(job):
+    import os
+    repo = os.environ.get('VERIF_REPO', '/repo')
+    try:
+        return _bmodel_phys_case(repo, job[1]) if job[0] == 'bmodel' else _ent_output_case(repo, tuple(job[1]))
+    except Exception as e:
+        return f'{type(e).__name__}: {e}'
+
+
+@bounded('C11.B-extra', bound='sample BSP: first brush model with physics keyvalues only / solids only / neither / both; an '
+         'entity with two outputs under both map separator conventions x both per-output flags x parameters with 0..3 commas',
+         rule='one case per variant')
+def b_extra(ctx):
+    jobs = [('bmodel', v) for v in ('kv_only', 'solids_only', 'neither', 'both')]
+    for map_comma in (True, False):
+        for out_comma in (True, False):
+            for param in ('', 'plain', 'SpawnAt(128, 64, 0)', 'a,b'):
+                if map_comma and ',' in param:
+                    continue        # a comma-separated map cannot carry a comma inside a parameter (not representable)
+                jobs.append(('ents', (map_comma, out_comma, param)))
+    os.environ['VERIF_REPO'] = ctx.repo
+    for job, bad in ctx.pmap(_job_extra, jobs, job_timeout=30.0):
+        ctx.case(job)
+        if bad:
+            ctx.violation(f'extra={job[0]}.{job[1]}'.replace(' ', ''), bad, [job[0], job[1]])
+
+
+b_extra.replay = lambda inp: (lambda r: {'failed': bool(r), 'observation': r})(_job_extra((inp[0], inp[1])))
+
+
 def _replay_pairs(inp):
     import os
     repo = os.environ.get('VERIF_REPO', '/repo')
@@ -612,7 +732,7 @@ def _replay_pairs(inp):
 
 
 b_pairs.replay = _replay_pairs
-BOUNDED = [b_rle, b_find, b_pairs]
+BOUNDED = [b_rle, b_find, b_pairs, b_extra]
 
 
 def _range_cases():
